@@ -9,7 +9,7 @@ from vlib.fsmt.equiv import Prog
 from vlib.corpus.programs import P
 
 
-def sources():
+def sources(pragmas=False):
     out = [(n, s, e, z) for n, s, e, z in P if 'frontend-limit' not in n]
     seen = set()
     for mod in ('c28', 'c29', 'c31', 'c32'):
@@ -18,6 +18,9 @@ def sources():
             if c.src not in seen and len(seen) < 40:
                 seen.add(c.src)
                 out.append((f'{mod}-{len(seen)}', c.src, c.entry, c.sizes[:1]))
+    if pragmas:
+        from vlib.corpus import c16 as C16  # pylint: disable=import-outside-toplevel
+        out += C16.sources()      # names start with 'prag-': pragma annotations are traced for these
     return out
 
 
@@ -83,10 +86,10 @@ def conservative_unmodified(p):
 
 def c03_cases():
     out = []
-    for name, src, entry, sizes in sources():
-        out.append(Case(f'{name}/unmodified', src, entry, sizes[:1], conservative_unmodified, 'conservative', must_change=False))
+    for name, src, entry, sizes in sources(pragmas=True):
+        out.append(Case(f'{name}/unmodified', src, entry, sizes[:1], conservative_unmodified, 'conservative', must_change=False, trace_pragmas=name.startswith('prag-')))
         for k in (0, 1, 3):
-            out.append(Case(f'{name}/edit{k}', src, entry, sizes[:1], mk_conservative(k), 'conservative', must_change=False))
+            out.append(Case(f'{name}/edit{k}', src, entry, sizes[:1], mk_conservative(k), 'conservative', must_change=False, trace_pragmas=name.startswith('prag-')))
     return out
 
 
@@ -107,6 +110,69 @@ def clone_outlives(p):
     q = Prog.from_sourcefile(c, name, absent=absent)
     q.fortran()
     return Prog.from_source(p.text_orig, name, absent=absent), q
+
+
+def _scopes_of(unit):
+    out = {id(unit)}
+    for r in getattr(unit, 'members', ()) or ():
+        out |= _scopes_of(r)
+    for r in getattr(unit, 'subroutines', ()) or ():
+        out |= _scopes_of(r)
+    return out
+
+
+def assert_scoped_through(sf, what):
+    """every symbol inside the kind / shape / initial value of a declared variable of ``sf`` must be attached to a
+    scope of ``sf`` itself (property C17: symbols resolve their types through the clone and its own scope chain)"""
+    from loki.expression import ExpressionRetriever  # pylint: disable=import-outside-toplevel
+    own = set()
+    units = list(sf.modules) + list(sf.routines)
+    for u in units:
+        own |= _scopes_of(u)
+    todo = list(units)
+    while todo:
+        u = todo.pop()
+        todo += list(getattr(u, 'members', ()) or ()) + list(getattr(u, 'subroutines', ()) or ())
+        for v in u.variables:
+            t = v.type
+            exprs = [t.kind, t.initial] + list(t.shape or ())
+            for e in exprs:
+                if e is None or isinstance(e, str) or not hasattr(e, 'mapper_method'):
+                    continue
+                for x in ExpressionRetriever(lambda q: hasattr(q, 'scope')).retrieve(e):
+                    sc = getattr(x, 'scope', None)
+                    if sc is not None and id(sc) not in own:
+                        if type(sc).__name__ in ('Subroutine', 'Function', 'Module'):
+                            raise AssertionError(f'{what}: symbol {x} in the declaration of {u.name}%{v.name} is attached to a scope outside the unit ({sc})')
+
+
+def retype_original_then_inline(src):
+    """clone; change the value of every literal-valued module parameter of the ORIGINAL; the clone -- inlined with its own
+    constants by the real inline_constant_parameters -- must behave like the unmodified program"""
+    def f(p):
+        from loki.transformations.inline import inline_constant_parameters  # pylint: disable=import-outside-toplevel
+        c = p.sourcefile.clone()
+        n = 0
+        for m in p.sourcefile.modules:
+            for v in m.variables:
+                t = v.type
+                if t.parameter and isinstance(t.initial, (sym.IntLiteral, sym.FloatLiteral)):
+                    new = sym.IntLiteral(t.initial.value + 1) if isinstance(t.initial, sym.IntLiteral) else sym.FloatLiteral('7.25')
+                    m.symbol_attrs[v.name] = t.clone(initial=new)
+                    n += 1
+        if not n:
+            raise RuntimeError('no literal-valued module parameter to re-type')
+        q = Prog.from_sourcefile(c, p.entry.name, absent=p.absent)
+        inline_constant_parameters(q.entry, external_only=True)
+        q.fortran()
+        return Prog.from_source(src, p.entry.name, absent=p.absent), q
+    return f
+
+
+def clone_scoped(p):
+    c = p.sourcefile.clone()
+    assert_scoped_through(c, 'clone')
+    return Prog.from_sourcefile(c, p.entry.name, absent=p.absent)
 
 
 def mk_outlives(src):
@@ -147,14 +213,19 @@ def routine_clone(p):
 
 def c17_cases():
     out = []
-    for name, src, entry, sizes in sources():
-        out.append(Case(f'{name}/clone-equals-original', src, entry, sizes[:1], clone_equals, 'clone', must_change=False, raise_is_violation=True))
-        out.append(Case(f'{name}/routine-clone', src, entry, sizes[:1], routine_clone, 'clone', must_change=False))
+    for name, src, entry, sizes in sources(pragmas=True):
+        out.append(Case(f'{name}/clone-equals-original', src, entry, sizes[:1], clone_equals, 'clone', must_change=False, raise_is_violation=True, trace_pragmas=name.startswith('prag-')))
+        out.append(Case(f'{name}/routine-clone', src, entry, sizes[:1], routine_clone, 'clone', must_change=False, trace_pragmas=name.startswith('prag-')))
         out.append(Case(f'{name}/clone-outlives-original', src, entry, sizes[:1], mk_outlives(src), 'clone', must_change=False,
                         raise_is_violation=True))
+        out.append(Case(f'{name}/clone-symbols-scoped-through-clone', src, entry, sizes[:1], clone_scoped, 'clone', must_change=False,
+                        raise_is_violation=('AssertionError',)))
+        if 'parameter' in src.lower() and 'module' in src.lower():
+            out.append(Case(f'{name}/retype-original-parameters-then-inline-clone', src, entry, sizes[:1], retype_original_then_inline(src),
+                            'clone', must_change=False))
         for k in (0, 2):
-            out.append(Case(f'{name}/edit-clone-{k}', src, entry, sizes[:1], mk_edit_clone(k), 'clone', must_change=False))
-            out.append(Case(f'{name}/edit-original-{k}', src, entry, sizes[:1], mk_edit_original(k), 'clone', must_change=False))
+            out.append(Case(f'{name}/edit-clone-{k}', src, entry, sizes[:1], mk_edit_clone(k), 'clone', must_change=False, trace_pragmas=name.startswith('prag-')))
+            out.append(Case(f'{name}/edit-original-{k}', src, entry, sizes[:1], mk_edit_original(k), 'clone', must_change=False, trace_pragmas=name.startswith('prag-')))
     return out
 
 
@@ -177,9 +248,9 @@ def pickled_units(p):
 
 def c18_cases():
     out = []
-    for name, src, entry, sizes in sources():
-        out.append(Case(f'{name}/sourcefile', src, entry, sizes[:1], pickled_sourcefile, 'pickle', must_change=False, raise_is_violation=True))
-        out.append(Case(f'{name}/units', src, entry, sizes[:1], pickled_units, 'pickle', must_change=False, raise_is_violation=True))
+    for name, src, entry, sizes in sources(pragmas=True):
+        out.append(Case(f'{name}/sourcefile', src, entry, sizes[:1], pickled_sourcefile, 'pickle', must_change=False, raise_is_violation=True, trace_pragmas=name.startswith('prag-')))
+        out.append(Case(f'{name}/units', src, entry, sizes[:1], pickled_units, 'pickle', must_change=False, raise_is_violation=True, trace_pragmas=name.startswith('prag-')))
     return out
 
 
@@ -221,9 +292,50 @@ def attach_detach_raising(p):
     return p
 
 
+def attach_detach_more(p):
+    """further node types / flags, nested in both orders"""
+    from loki.ir import pragmas_attached, pragma_regions_attached  # pylint: disable=import-outside-toplevel
+    from loki.analyse import dataflow_analysis_attached  # pylint: disable=import-outside-toplevel
+    allr = p.routines + [r for m in p.modules for r in m.subroutines]
+    for r in allr:
+        with pragmas_attached(r, ir.CallStatement, attach_pragma_post=False):
+            pass
+        with pragmas_attached(r, ir.VariableDeclaration):
+            pass
+        with pragmas_attached(r, (ir.Loop, ir.CallStatement), attach_pragma_post=True):
+            with pragma_regions_attached(r):
+                with dataflow_analysis_attached(r):
+                    pass
+        with pragma_regions_attached(r):
+            with pragmas_attached(r, ir.Loop):
+                pass
+        try:
+            with pragmas_attached(r, ir.CallStatement, attach_pragma_post=True):
+                with pragma_regions_attached(r):
+                    raise KeyError('body raises')
+        except KeyError:
+            pass
+    p.text = None
+    return p
+
+
+def reparsed(f):
+    """the generated code after the operation, read back by the frontend (what a user of the written file sees)"""
+    def g(p):
+        q = f(p)
+        return Prog.from_source(q.fortran(), p.entry.name, absent=p.absent)
+    return g
+
+
 def c16_cases():
+    from vlib.corpus import c16 as C16  # pylint: disable=import-outside-toplevel
     out = []
     for name, src, entry, sizes in sources():
         out.append(Case(f'{name}/attach-detach', src, entry, sizes[:1], attach_detach_all, 'attach-detach', must_change=False))
         out.append(Case(f'{name}/raising-body', src, entry, sizes[:1], attach_detach_raising, 'attach-detach', must_change=False))
+    ops = (('attach-detach', attach_detach_all), ('raising-body', attach_detach_raising), ('more-combinations', attach_detach_more))
+    for name, src, entry, sizes in C16.sources():
+        for on, f in ops:
+            out.append(Case(f'{name}/{on}', src, entry, sizes[:1], f, 'attach-detach', must_change=False, trace_pragmas=True))
+            out.append(Case(f'{name}/{on}/reparsed', src, entry, sizes[:1], reparsed(f), 'attach-detach', must_change=False, trace_pragmas=True))
     return out
